@@ -6,7 +6,7 @@ rnd=sys.argv[1]; ids=sys.argv[2:]
 tmpl=open('/tmp/seed_prompt.txt').read().replace('`git stash` the source change: must pass','save the change with `git diff > OUT/my.patch`, revert it with `git checkout -- <file>`, run (must pass), re-apply with `git apply`; do NOT use git stash, it is shared between worktrees')
 prev={}
 for d in glob.glob('/verif/seeded/*/meta.json'):
-    m=json.load(open(d)); prev.setdefault(m['property'],[]).append(m['breaks'][:400])
+    m=json.load(open(d)); prev.setdefault(m['property'],[]).append((m.get('breaks') or m.get('summary') or '')[:400])
 for l in open('/verif/properties.jsonl'):
     p=json.loads(l)
     if p['id'] in ids:
